@@ -55,6 +55,7 @@ func VxC07Ring() {
 		}
 	}
 	got, err := vxApply(fn, ts)
+	vxObserve("ring-result", got.NumValue)
 	vxReach("ring")
 	vxAssert(err == nil, "ring-no-error")
 	vxAssert(got.Type == ast.NumberType, "ring-type")
@@ -70,6 +71,8 @@ func VxC07Div() {
 	case 0: // div(x,y)
 		xs, ts := vxNums("x", 2)
 		got, err := vxApply(symbols.Div, ts)
+		vxObserve("div-result", got.NumValue)
+		vxObserve("div-error", err != nil)
 		vxReach("div2")
 		if xs[1] == 0 {
 			vxAssert(errors.Is(err, ErrDivisionByZero), "div-by-zero-error")
@@ -224,6 +227,65 @@ func VxC07Reducers() {
 		found := false
 		for _, x := range xs {
 			if e == x {
+				found = true
+			}
+		}
+		vxAssert(found, "collect-distinct-nothing-else")
+	}
+}
+
+// VxC07CollectKinds: collect_distinct over N rows whose values are arbitrary int64 payloads
+// presented as a number, a duration or a time (values of different kinds with equal payloads have
+// equal hashes but are different values): the result, read as a set, is the set of distinct row
+// values, whatever the row order.
+func VxC07CollectKinds() {
+	n := vxParam("N", 3)
+	perm := vxPerms[n][vxChoose("perm", len(vxPerms[n]))]
+	xs := make([]int64, n)
+	kinds := make([]int, n)
+	vals := make([]ast.Constant, n)
+	for k := 0; k < n; k++ {
+		xs[k] = vxInt64(fmt.Sprintf("r%d", k))
+		kinds[k] = vxChoose(fmt.Sprintf("kind%d", k), 3)
+		switch kinds[k] {
+		case 0:
+			vals[k] = ast.Number(xs[k])
+		case 1:
+			vals[k] = ast.Duration(xs[k])
+		default:
+			vals[k] = ast.Time(xs[k])
+		}
+	}
+	rows := make([]ast.ConstSubstList, n)
+	for k, p := range perm {
+		rows[k] = ast.ConstSubstList{}.Extend(ast.Variable{Symbol: "X"}, vals[p])
+	}
+	got, err := EvalReduceFn(ast.ApplyFn{Function: symbols.CollectDistinct, Args: []ast.BaseTerm{ast.Variable{Symbol: "X"}}}, rows)
+	vxReach("collect-kinds")
+	vxAssert(err == nil, "reduce-no-error")
+	type el struct {
+		t ast.ConstantType
+		v int64
+	}
+	var elems []el
+	got.ListValues(func(c ast.Constant) error {
+		elems = append(elems, el{c.Type, c.NumValue})
+		return nil
+	}, func() error { return nil })
+	same := func(e el, k int) bool { return e.t == vals[k].Type && e.v == xs[k] }
+	for k := range vals {
+		cnt := 0
+		for _, e := range elems {
+			if same(e, k) {
+				cnt++
+			}
+		}
+		vxAssert(cnt == 1, "collect-distinct-each-once")
+	}
+	for _, e := range elems {
+		found := false
+		for k := range vals {
+			if same(e, k) {
 				found = true
 			}
 		}
